@@ -250,7 +250,8 @@ def xml_roundtrip(tier, seed):
             root.addnext(LX.ProcessingInstruction('epilog', 'x="1"'))
         rn = get_node_tree(ET.ElementTree(root) if lib == 'et' else LX.ElementTree(root))
         nodes = [rn] + [x for x in rn.iter_descendants() if hasattr(x, 'elem') and not callable(x.elem.tag)]
-        for node in nodes[: (4 if tier == 'quick' else 12)]:
+        first_text = None
+        for node in nodes[: (4 if tier == 'quick' else 12)] + [rn]:
             n += 1
             ser = sers[(n + ti) % 2]
             try:
@@ -262,6 +263,12 @@ def xml_roundtrip(tier, seed):
             except Exception as e:      # noqa
                 bad('serialize / parse-xml raises a non-XPath error', tree=repr(t)[:160], err=f'{type(e).__name__}: {str(e)[:80]}')
                 continue
+            if node is rn:
+                # serialising the parts of a document in between does not change what the document serialises to
+                if first_text is None:
+                    first_text = (ser, text)
+                elif first_text[0] is ser and first_text[1] != text:
+                    bad('serialize(/) gives a different text after some of its elements have been serialized', tree=repr(t)[:160], first=first_text[1][:100], again=text[:100])
             orig = node.elem if hasattr(node, 'elem') else root
             new_root = doc.getroot().elem if hasattr(doc, 'getroot') else doc.elem
             if not tree_equal(orig, new_root):
